@@ -137,11 +137,10 @@ def inoculate_dataset(
     elif isinstance(target_ds, str):
         raise RuntimeError("target_ds cannot be a string (unless it is 'inplace' or 'base')")
 
-    if isinstance(target_ds, (rdflib.ConjunctiveGraph, rdflib.Dataset)):
-        if not isinstance(target_ds, rdflib.Dataset):
-            raise RuntimeError("Cannot inoculate ConjunctiveGraph, use Dataset instead.")
-    else:
+    if not isinstance(target_ds, (rdflib.ConjunctiveGraph, rdflib.Dataset)):
         raise RuntimeError("Cannot inoculate datasets if target_ds passed in is not a Dataset itself.")
+    # A ConjunctiveGraph is a valid target too (inplace mix-in into the caller's ConjunctiveGraph):
+    # get_context() gives the destination graph on its store just as for a Dataset.
 
     if target_graph_identifier:
         dest_graph = target_ds.get_context(target_graph_identifier)
